@@ -43,6 +43,7 @@ def t_sem(ctx):
     durs = [ctx.real(f'd{i}', 0, hi) if i < nd else Exact('1/4') for i in range(n)]
     outs = [ctx.enum(f'o{i}', ('return', 'raise')) if raising and i < 2 else 'return' for i in range(n)]
     t_c = ctx.real('t_c', 0, 3) if cancel is not None else None
+    pdur = min(Exact('1/10'), semT / 2)   # probe body shorter than the acquisition time-out
     ctx.new_loop(horizon=30)
     loop = ctx.loop
     kw = dict(wait=0, retries=0, timeout=TO, semaphore_limit=L, semaphore_lax=lax,
@@ -133,7 +134,7 @@ def t_sem(ctx):
         await asyncio.gather(*ts, return_exceptions=True)
         # ---- black-box capacity probe after quiescence (scope of caller 0)
         info['probe_at'] = loop.time()
-        ps = [asyncio.ensure_future(caller(0, 0, Exact('1/10'), 'return', tag=f'p{j}_')) for j in range(L + 1)]
+        ps = [asyncio.ensure_future(caller(0, 0, pdur, 'return', tag=f'p{j}_')) for j in range(L + 1)]
         await asyncio.gather(*ps, return_exceptions=True)
 
     ok = ctx.run(main())
@@ -143,23 +144,25 @@ def t_sem(ctx):
     recs = ctx.records
     # ---- concurrency per scope from records
     inprog = {}
+    holders = {}     # per scope: callers that entered while fewer than L slot holders were in progress (they own a slot)
     entered = {}
     for r in recs:
         if r.kind == 'BE':
             cur = inprog.setdefault(r.key, [])
+            hold = holders.setdefault(r.key, [])
             me = info[r.i]
-            over = len(cur) >= L
-            if over:
+            if len(hold) >= L:
                 ctx.witness('limit exceeded (lax)')
-                # documented exception only: lax and the caller waited the full acquisition time-out
-                ctx.check('C20.limit', zand(lax, r.t == me['call'] + semT), caller=r.i, inprog=list(cur))
+                # documented exception only: lax and the caller waited the full acquisition time-out; it owns no slot
+                ctx.check('C20.limit', zand(lax, r.t == me['call'] + semT), caller=r.i, inprog=list(cur), holders=list(hold))
             else:
-                if not str(r.i).startswith('p'):
-                    pass
+                hold.append(r.i)
             cur.append(r.i)
             entered[r.i] = r
         elif r.kind == 'BX':
             inprog[r.key].remove(r.i)
+            if r.i in holders.get(r.key, []):
+                holders[r.key].remove(r.i)
     # ---- per caller
     for cid, me in info.items():
         if not isinstance(me, dict) or 'call' not in me:
@@ -203,7 +206,7 @@ def t_sem(ctx):
     # ---- capacity probe: first L probes enter at probe_at, the L+1st exactly when the first slot frees (+1/10)
     pa = info['probe_at']
     pin = [entered.get(f'p{j}_0') for j in range(L + 1)]
-    ctx.check('C20.released_once', all(p is not None for p in pin) and zand(*[p.t == pa for p in pin[:L]], pin[L].t == pa + Exact('1/10')),
+    ctx.check('C20.released_once', all(p is not None for p in pin) and zand(*[p.t == pa for p in pin[:L]], pin[L].t == pa + pdur),
               why='capacity after quiescence differs from L (slot leaked or released twice)')
 
 
@@ -215,10 +218,18 @@ def t_sem2loops(ctx):
 
     @helpers.retry(wait=0, retries=0, timeout=5, semaphore_limit=1, semaphore_name='S2', semaphore_scope='global', semaphore_lax=False)
     async def f(i):
-        await asyncio.sleep(d)
+        live.append(i)
+        peak[0] = max(peak[0], len(live))
+        try:
+            await asyncio.sleep(d)
+        finally:
+            live.remove(i)
         return i
 
+    live, peak = [], [0]
+
     def one_loop(tag):
+        peak[0] = 0
         loop = ctx.new_loop(horizon=20)
         res = {}
 
@@ -227,14 +238,16 @@ def t_sem2loops(ctx):
             res['rs'] = rs
         okk = ctx.run(main())
         ctx.teardown()
-        out[tag] = (okk, res.get('rs'))
+        out[tag] = (okk, res.get('rs'), peak[0])
 
     one_loop('loop1')
     one_loop('loop2')
+    one_loop('loop3')
     ctx.rec('K', l1=str(out['loop1']), l2=str(out['loop2']))
-    for tag in ('loop1', 'loop2'):
-        okk, rs = out[tag]
+    for tag in ('loop1', 'loop2', 'loop3'):
+        okk, rs, pk = out[tag]
         ctx.check('C20.successive_loops', bool(okk) and rs == [0, 1], loop=tag, got=repr(rs))
+        ctx.check('C20.limit', pk <= 1, loop=tag, peak=pk, why='limit 1 exceeded in this event loop')
 
 
 def t_semarith(ctx):
